@@ -40,7 +40,7 @@ def used(eng, name):
 
 
 def _is_sarr(v):
-    return isinstance(v, SArr) and not hasattr(v, "__pyvc_getitem__")
+    return isinstance(v, SArr) and (not hasattr(v, "__pyvc_getitem__") or type(v).__name__ == "Series5")
 
 
 def _as_sarr(v):
@@ -314,6 +314,19 @@ _MINE = {
     np.any: _np_reduce(np.any, "numpy.any", lambda e, a: _all_any(e, a, False)),
     np.argsort: _np_argsort, np.sort: _np_sort, np.searchsorted: _np_searchsorted,
 }
+
+
+def _late(name):
+    """models of pyvc/ext_C05_frame.py (whole-table frame operations, dtype-faithful casts), imported on first use"""
+    def model(eng, args, kwargs):
+        from . import ext_C05_frame
+
+        return getattr(ext_C05_frame, name)(eng, args, kwargs)
+
+    return model
+
+
+_MINE[np.take] = _late("np_take")
 # functions for which a stock model (pyvc/npmodels.py), where one exists, takes precedence: this file only fills the gap
 _STOCK_FIRST = {np.all, np.any}
 _METHODS = {"min": _m_min, "max": _m_max, "argsort": _m_argsort, "searchsorted": _m_searchsorted}
